@@ -1,7 +1,7 @@
 (** C12 -- declared shapes and dtypes match actual behaviour; bad inputs are rejected.
     Only statements; each closed by [exact] of a lemma of coq/theories/C12. *)
 From Coq Require Import List Bool ZArith Lia.
-From SV Require Import C12.Slice C12.SliceThm C12.Shape C12.Expr C12.ExprSpec C12.ExprThm C12.Replicated.
+From SV Require Import C12.Slice C12.SliceThm C12.Shape C12.Expr C12.ExprSpec C12.ExprThm C12.Replicated C12.FiniteDiff.
 Import ListNotations.
 Open Scope Z_scope.
 
@@ -209,6 +209,48 @@ Example C12_example_replicated :
     (build (XDRep (XLeaf true (Plain [3; 4]) (Plain [3]) false F32 None (FPromote F32) AAuto) 5 (-2) (Some (-1))))
   = Some (mkmeta (Plain [3; 5; 4]) (Plain [3; 5]) F32 F32, Some (Plain [3; 5], F32), Some (Plain [3; 5; 4], F32)).
 Proof. vm_compute. reflexivity. Qed.
+
+(** * Finite differences and DFT *)
+
+(** On the difference axis, for every length >= 1 and every admissible (prepend, append,
+    circular) -- None, 0 (falsy!) or 1 -- the declared length n + [prepend is not None] +
+    [append is not None] - 1 (n when circular) is the length snp.diff produces in _eval. *)
+Theorem C12_fd_len_declared_eq_actual : forall n p a circ,
+  1 <= n -> fd_args_ok p a circ = true -> fd_decl_len n p a circ = fd_eval_len n p a circ false.
+Proof. exact fd_len_declared_eq_actual. Qed.
+Print Assumptions C12_fd_len_declared_eq_actual.
+
+(** SingleAxisFiniteDifference: for every shape with positive dimensions, every axis in
+    [-rank, rank) and every boundary setting, declared output shape = documented rule = shape
+    of the evaluation (an inadmissible setting is rejected by all three).  Axis < -rank:
+    Findings/C12_refuted.v. *)
+Theorem C12_fd_declared_eq_spec : forall s ax p a circ,
+  Forall (fun d => 1 <= d) s -> - Z.of_nat (length s) <= ax < Z.of_nat (length s) ->
+  safd_declared s ax p a circ = safd_spec s ax p a circ /\
+  safd_declared s ax p a circ = safd_actual s ax p a circ.
+Proof. exact safd_declared_eq_spec_eq_actual. Qed.
+Print Assumptions C12_fd_declared_eq_spec.
+
+(** FiniteDifference (vertical stack over the axes): declared element count = sum over the axes *)
+Theorem C12_fd_stack_size : forall s axes p a circ outs o,
+  mapo (fun ax => safd_declared s ax p a circ) axes = Some outs ->
+  fd_stack_declared s axes p a circ = Some o ->
+  size o = sumZ (map prodZ outs).
+Proof. exact fd_stack_size. Qed.
+Print Assumptions C12_fd_stack_size.
+
+(** DFT: the declared output shape has the rank of the input *)
+Theorem C12_dft_shape : forall s axes ash o,
+  dft_declared s axes ash = Some o -> length o = length s.
+Proof. exact dft_declared_rank. Qed.
+Print Assumptions C12_dft_shape.
+
+Example C12_example_fd :
+  safd_declared [6] 0 (Some 0) None false = Some [6] /\ safd_actual [6] 0 (Some 0) None false = Some [6]
+  /\ fd_declared [3; 4] None None (Some 0) false = Some (Plain [2; 3; 4])
+  /\ fd_declared [3; 4] None None None false = Some (Block [[2; 4]; [3; 3]])
+  /\ dft_declared [3; 4] None (Some [8]) = Some [3; 8] /\ dft_inv_shape [3; 4] [3; 8] None (Some [8]) = Some [3; 4].
+Proof. vm_compute. repeat split; reflexivity. Qed.
 
 Example C12_example_replicated_rejected :
   build (XDRep (XLeaf true (Plain [3; 4]) (Plain [3]) false F32 None (FPromote F32) AAuto) 5 (-1) None) = None
